@@ -18,6 +18,8 @@ import Qfx.Drv.Store
 import Qfx.Drv.StoreMon
 import Qfx.Drv.Crash
 import Qfx.Drv.CrashMon
+import Qfx.Drv.Conc
+import Qfx.Drv.ConcMon
 namespace Qfx.Drv
 
 def families : List (String × Family) :=
@@ -31,6 +33,7 @@ def families : List (String × Family) :=
   , ("frame", frameFamily), ("frame-mon", frameMonFamily)
   , ("store", storeFamily), ("store-mon", storeMonFamily)
   , ("crash", crashFamily), ("crash-mon", crashMonFamily)
+  , ("conc", concFamily), ("conc-mon", concMonFamily)
   ]
 
 end Qfx.Drv
